@@ -23,7 +23,7 @@ def check(ctx, world):
         "imply equal tuples. B3: the password symbol reaches group.password_to_scalar and H(.) unmodified. B4: the transcript "
         "contains the payload after the side byte, never the whole message or the side byte. Not decided: that different groups "
         "or blinding elements give different K (discrete-log statement).")
-    ctx.min_obligations = 40
+    ctx.min_obligations = 32
     ev = session.new_ev(world)
     for cname in session.PUBLIC_CLASSES:
         for cm in session.models(world, ev, cname):
